@@ -68,6 +68,38 @@ func extractAPI(repo string, o *out) {
 	emitStatus("status_toxic_exists", "ErrToxicAlreadyExists", 409)
 	emitStatus("status_toxic_not_found", "ErrToxicNotFound", 404)
 
+	// ---- ApiServer.Listen: the http.Server bounds the time a client may take to send a request INCLUDING its body (ReadTimeout).
+	// Handlers decode the body while holding the toxic collection lock, so without that bound one stalled upload freezes the proxy.
+	rdl := ""
+	if fd := p.method("ApiServer", "Listen"); fd != nil && fd.Body != nil {
+		consts := map[string]int64{}
+		for _, f := range p.files {
+			ast.Inspect(f, func(n ast.Node) bool {
+				if vs, ok := n.(*ast.ValueSpec); ok && len(vs.Names) == 1 && len(vs.Values) == 1 {
+					if v, ok := constInt(fs, vs.Values[0]); ok {
+						consts[vs.Names[0].Name] = v
+					}
+				}
+				return true
+			})
+		}
+		if n := find(fd.Body, func(x ast.Node) bool {
+			cl, ok := x.(*ast.CompositeLit)
+			return ok && show(fs, cl.Type) == "http.Server"
+		}); n != nil {
+			for _, e := range n.(*ast.CompositeLit).Elts {
+				if kv, ok := e.(*ast.KeyValueExpr); ok && show(fs, kv.Key) == "ReadTimeout" {
+					if v, ok := constInt(fs, kv.Value); ok {
+						rdl = coqZ(v)
+					} else if v, ok := consts[show(fs, kv.Value)]; ok {
+						rdl = coqZ(v)
+					}
+				}
+			}
+		}
+	}
+	o.emit("api_body_read_deadline_ns", "", "Z", rdl, "15000000000", "", "")
+
 	// ---- apiError: status of an error that is not an *ApiError
 	internal := ""
 	if fd := p.method("ApiServer", "apiError"); fd != nil {
